@@ -100,6 +100,7 @@ const (
 	SlotSession     = 9
 	SlotDone        = 10
 	SlotRotations   = 11 // predicted rotations (feeder side)
+	SlotDelSeq      = 12 // incremented when a directory removal (DelRunId) is about to start
 	SlotGenBase     = 16 // per generation: started, rdbHanded, aofHanded(abs right edge), logDone
 	GenSlots        = 4
 	GenStarted      = 0
